@@ -242,6 +242,7 @@ class Executor(ExprMixin, StmtMixin, CallMixin, ContractMixin):
             self.pre_state = st.copy()
             self.old_state = self.pre_state
             self.base_state = st.copy()
+            ghost_todo = list(getattr(c, 'ghost_entry', ()))
             for ex_ in c.inst:
                 v = self.eval_contract_expr(st, ex_, None, self.pre_state, want_bool=False)
                 self.extra_inst_terms.append(v.t)
@@ -299,6 +300,14 @@ class Executor(ExprMixin, StmtMixin, CallMixin, ContractMixin):
                     st.init_assigned.add('_dict')
                     self.pre_state = st.copy()
                     self.old_state = self.pre_state
+            for gf_, gv_ in ghost_todo:
+                # ghost code: `self.<ghost field> = <literal>` before the first statement of the body
+                cls_g = st.env['self'].ty.cls
+                dc_g, ft_g = self.classes.field(cls_g, gf_)
+                m_g = api.MODELS.get(dc_g)
+                if m_g is None or gf_ not in m_g.ghost_fields:
+                    raise OutsideSubset('ghost_entry target %s is not a ghost field' % gf_)
+                self.write_field(st, st.env['self'], cls_g, gf_, self.const_value(ast.literal_eval(gv_)), fs.node)
             if canary:
                 ends = self.exec_block(st, fs.node.body)
                 self.finish_canary(rep, ends)
